@@ -389,7 +389,12 @@ func c18HTTPAttempt(c *Ctx, aspects map[string]bool) {
 				}
 				// a reader that already is a ReadCloser goes to the transport as it is: net/http recognises an empty body
 				// (http.NoBody) by identity, and wrapping it turns "Content-Length: 0" into a chunked request
-				if rc := findTypeOK(q, fresh, "io.ReadCloser"); rc == nil || (q.State.Facts.Truth(ts, rc) == triT) == wrapped {
+				alreadyRC := fresh.Typ != nil && types.TypeString(fresh.Typ, nil) == "io.ReadCloser" // the factory hands out ReadClosers
+				if alreadyRC {
+					if wrapped {
+						bad("a reader the factory already hands out as an io.ReadCloser must reach the transport as it is (http.NoBody is recognised by identity)")
+					}
+				} else if rc := findTypeOK(q, fresh, "io.ReadCloser"); rc == nil || (q.State.Facts.Truth(ts, rc) == triT) == wrapped {
 					bad("the fresh reader must be used as it is when it is an io.ReadCloser (http.NoBody is recognised by identity) and wrapped in io.NopCloser only otherwise")
 					continue
 				}
@@ -442,6 +447,17 @@ func c18HTTPAttempt(c *Ctx, aspects map[string]bool) {
 }
 
 // ---- bodyReader --------------------------------------------------------------------------------------------
+
+// unwrapNop: a reader handed out behind io.NopCloser is that reader (whether the factory or the attempt does the
+// wrapping is the same to the transport).
+func unwrapNop(q *Path, t *T) *T {
+	for _, e := range q.Events() {
+		if isCall(e, "NopCloser") && len(e.Res) == 1 && e.Res[0] == t && len(e.Args) == 1 {
+			return e.Args[0]
+		}
+	}
+	return t
+}
 
 func c18BodyReader(c *Ctx) {
 	c.Rule("body-kinds")
@@ -526,7 +542,7 @@ func c18BodyReader(c *Ctx) {
 			}
 			for _, q := range evalClosure() {
 				nr := eventsWhere(q, func(e *Event) bool { return isCall(e, "NewReader") && e.Idx >= q.Base })
-				if len(nr) != 1 || q.Rets[0] != nr[0].Res[0] || !(nr[0].Args[0].Op == "app" && hasPrefix(nr[0].Args[0].Aux, "Bytes@") && nr[0].Args[0].Args[0] == body) || !q.Rets[1].IsNilConst() {
+				if len(nr) != 1 || unwrapNop(q, q.Rets[0]) != nr[0].Res[0] || !(nr[0].Args[0].Op == "app" && hasPrefix(nr[0].Args[0].Aux, "Bytes@") && nr[0].Args[0].Args[0] == body) || !q.Rets[1].IsNilConst() {
 					bad("*bytes.Buffer ⇒ every call yields a new reader over the buffer's whole content")
 				}
 			}
@@ -559,7 +575,7 @@ func c18BodyReader(c *Ctx) {
 					}
 					continue
 				}
-				if len(nr) != 1 || q.Rets[0] != nr[0].Res[0] || nr[0].Args[0] != buf || !q.Rets[1].IsNilConst() {
+				if len(nr) != 1 || unwrapNop(q, q.Rets[0]) != nr[0].Res[0] || nr[0].Args[0] != buf || !q.Rets[1].IsNilConst() {
 					bad("every call must yield a new reader over the whole captured content")
 				}
 			}
@@ -791,7 +807,10 @@ func c18HTTPRetry(c *Ctx) {
 		switch hasErr {
 		case triT:
 			// documented exceptions: unsupported scheme; *url.Error with untrusted certificate, too many redirects or unknown authority
-			matches := eventsWhere(q, func(e *Event) bool { return isCall(e, "MatchString") && e.Idx >= q.Base })
+			// (recognised by a regular expression or by a plain substring test of the error text)
+			matches := eventsWhere(q, func(e *Event) bool {
+				return (isCall(e, "MatchString") || (isCall(e, "Contains") && e.Callee == "strings.Contains")) && e.Idx >= q.Base
+			})
 			anyMatch := false
 			for _, m := range matches {
 				if q.State.Facts.Truth(ts, m.Res[0]) == triT {
